@@ -187,8 +187,11 @@ structure DInv (d : Disk) (A : List Rec) : Prop where
   pres : Presents d.wmVal (recsOf d.files) A
   zlow : Low d.wmVal (recsOf d.zombies)
   /-- the same for the watermark a crash may bring back -/
-  presAlt : ∀ w, d.wmAlt = some w → Presents (w.getD 0) (recsOf d.files) A
-  zlowAlt : ∀ w, d.wmAlt = some w → Low (w.getD 0) (recsOf d.zombies)
+  presAlt : ∀ w ∈ d.wmAlt, Presents (w.getD 0) (recsOf d.files) A
+  zlowAlt : ∀ w ∈ d.wmAlt, Low (w.getD 0) (recsOf d.zombies)
+  /-- sequence numbers are well-formed in every log: Pebble's reader skips no batch -/
+  seq : ∀ f ∈ d.files, SeqOK f
+  zseq : ∀ z ∈ d.zombies, SeqOK z
 
 theorem low_of_mem_recsOf {w : Nat} {zs : List LogFile} (l : Low w (recsOf zs)) (z : LogFile) (hz : z ∈ zs) :
     Low w (recsOfFile z) := by
@@ -213,22 +216,35 @@ theorem foldr_insertFile_inv (w : Nat) (A : List Rec) (zs fs : List LogFile)
     · exact (hz _ List.mem_cons_self).2
     · exact i3 f h
 
+theorem mem_foldr_insertFile (zs fs : List LogFile) (f : LogFile) (h : f ∈ zs.foldr insertFile fs) : f ∈ zs ∨ f ∈ fs := by
+  induction zs with
+  | nil => exact Or.inr h
+  | cons z zs ih =>
+    simp only [List.foldr_cons] at h
+    rcases mem_insertFile z _ f h with rfl | h'
+    · exact Or.inl List.mem_cons_self
+    · rcases ih h' with h'' | h''
+      · exact Or.inl (List.mem_cons_of_mem _ h'')
+      · exact Or.inr h''
+
 theorem garbageOnlyLast_of_clean (fs : List LogFile) (h : ∀ f ∈ fs, f.garbage = false) : GarbageOnlyLast fs :=
   fun f hf => h f ((List.dropLast_sublist fs).subset hf)
 
 /-- The invariant survives a crash: with any subset of the unlinked logs back (and an undurable
 watermark rename undone or not), the directory still satisfies it, and nothing is pending any more. -/
-theorem DInv.resurrect {d : Disk} {A : List Rec} (i : DInv d A) (mask : List Bool) (alt : Bool) :
+theorem DInv.resurrect {d : Disk} {A : List Rec} (i : DInv d A) (mask : List Bool) (alt : Nat) :
     DInv (d.resurrect mask alt) A := by
   -- the watermark the image ends up with, and what is known about it
   have hw : ∃ w, (d.resurrect mask alt).wm = w ∧ Presents (w.getD 0) (recsOf d.files) A ∧
       Low (w.getD 0) (recsOf d.zombies) := by
     cases alt with
-    | false => exact ⟨d.wm, rfl, i.pres, i.zlow⟩
-    | true =>
-      cases ha : d.wmAlt with
+    | zero => exact ⟨d.wm, rfl, i.pres, i.zlow⟩
+    | succ k =>
+      cases ha : d.wmAlt[k]? with
       | none => exact ⟨d.wm, by simp [Disk.resurrect, ha], i.pres, i.zlow⟩
-      | some w => exact ⟨w, by simp [Disk.resurrect, ha], i.presAlt w ha, i.zlowAlt w ha⟩
+      | some w =>
+        have hm : w ∈ d.wmAlt := List.mem_of_getElem? ha
+        exact ⟨w, by simp [Disk.resurrect, ha], i.presAlt w hm, i.zlowAlt w hm⟩
   obtain ⟨w, hwm, hp, hl⟩ := hw
   have hwv : (d.resurrect mask alt).wmVal = w.getD 0 := by unfold Disk.wmVal; rw [hwm]
   by_cases hz : d.zombies = []
@@ -238,7 +254,8 @@ theorem DInv.resurrect {d : Disk} {A : List Rec} (i : DInv d A) (mask : List Boo
       cases mask with
       | nil => simp [pick]
       | cons b m => cases b <;> simp [pick]
-    refine ⟨by rw [hf]; exact i.asc, by rw [hf]; exact i.garb, fun _ => rfl, by simp [Disk.resurrect], ?_, ?_, ?_, ?_⟩
+    refine ⟨by rw [hf]; exact i.asc, by rw [hf]; exact i.garb, fun _ => rfl, by simp [Disk.resurrect], ?_, ?_, ?_, ?_,
+      by rw [hf]; exact i.seq, by simp [Disk.resurrect]⟩
     · rw [hwv, hf]; exact hp
     · simp [Disk.resurrect, recsOf, Low]
     · intro w' hw'; simp [Disk.resurrect] at hw'
@@ -253,17 +270,22 @@ theorem DInv.resurrect {d : Disk} {A : List Rec} (i : DInv d A) (mask : List Boo
       have := mem_pick mask d.zombies z hzm
       exact ⟨low_of_mem_recsOf hl z this, i.zclean z this⟩
     obtain ⟨j1, j2, j3⟩ := foldr_insertFile_inv (w.getD 0) A (pick mask d.zombies) d.files hzs i.asc hp hclean
-    refine ⟨j1, garbageOnlyLast_of_clean _ j3, fun _ => rfl, by simp [Disk.resurrect], ?_, ?_, ?_, ?_⟩
+    refine ⟨j1, garbageOnlyLast_of_clean _ j3, fun _ => rfl, by simp [Disk.resurrect], ?_, ?_, ?_, ?_, ?_,
+      by simp [Disk.resurrect]⟩
     · rw [hwv]; exact j2
     · simp [Disk.resurrect, recsOf, Low]
     · intro w' hw'; simp [Disk.resurrect] at hw'
     · intro w' hw'; simp [Disk.resurrect] at hw'
+    · intro f hf
+      rcases mem_foldr_insertFile _ _ f hf with h | h
+      · exact i.zseq f (mem_pick mask d.zombies f h)
+      · exact i.seq f h
 
 /-- Every crash image of a directory that satisfies the invariant for `A` reopens without
 error and `LoadAllEntries` yields exactly `A`. -/
-theorem DInv.image_good {d : Disk} {A : List Rec} (i : DInv d A) (mask : List Bool) (alt : Bool) :
+theorem DInv.image_good {d : Disk} {A : List Rec} (i : DInv d A) (mask : List Bool) (alt : Nat) :
     ∃ out, recover (d.resurrect mask alt) = .ok out ∧ LoadSpec out A := by
   have j := i.resurrect mask alt
-  exact recover_of_presents _ A j.garb j.pres
+  exact recover_of_presents _ A j.garb j.seq j.pres
 
 end Juno.C14
